@@ -65,3 +65,20 @@ Lemma sch_interval_soft ci ri : sch_interval true true ci ri = ri.
 Proof. reflexivity. Qed.
 Lemma sch_interval_other soft has_cr ci ri : soft && has_cr = false -> sch_interval soft has_cr ci ri = ci.
 Proof. unfold sch_interval. intros ->. reflexivity. Qed.
+
+(* after each execution: retry_interval exactly when the state AFTER the result is soft, whatever the
+   pre-state was (never checked or not) *)
+Lemma sch_interval_after_spec (soft_after : bool) (ci ri : Q) :
+  sch_interval_after soft_after ci ri = if soft_after then ri else ci.
+Proof. unfold sch_interval_after, sch_interval. rewrite andb_true_r. reflexivity. Qed.
+
+Theorem sch_next_check_after_result (now ci ri : Q) (soft_after : bool) (offset : Z) :
+  let I := if soft_after then ri else ci in
+  0 < I -> 0 <= now -> (0 <= offset)%Z ->
+  now < sch_update_next_check now (sch_interval_after soft_after ci ri) offset /\
+  sch_update_next_check now (sch_interval_after soft_after ci ri) offset <= now + I.
+Proof.
+  intros I HI Hn Ho. rewrite sch_interval_after_spec. fold I.
+  pose proof (sch_next_check_bounds now I I false false offset) as H. cbv zeta in H.
+  unfold sch_interval in H. cbn [andb] in H. apply H; assumption.
+Qed.
